@@ -131,7 +131,7 @@ class TheoremStream(Stream):
     rule = ("add_header_to_file run 5 times on a scratch file: every style of the table (and the .license pseudo style) x {default, "
             "--multi-line where supported} x 14 bodies free of REUSE tags (empty, code, blank lines first, same-style comment or comment "
             "block where the header goes, shebang, shebang + comment, CRLF, CR, byte order mark, stray terminator / opener line) x 10 "
-            "requests (every non-empty subset of {copyright, licence, contributor}, contributor-only in every cell) x {default template, text-adding template, pre-commented template on C-like styles} x {plain, --merge-copyrights}; "
+            "requests (every non-empty subset of {copyright, licence, contributor}, contributor-only in every cell; contributors whose tail is a comment terminator or line marker of some style) x {default template, text-adding template, pre-commented template on C-like styles} x {plain, --merge-copyrights}; "
             "oracle: bytes after run 2..5 = bytes after run 1, the requested notice stands exactly once; the driver evaluates the "
             "hypotheses of C10_idem_text_partial per case and, where they hold, both runs must equal the theorem's text; "
             "non-trivial = hypotheses hold and a header was written")
@@ -161,6 +161,19 @@ class TheoremStream(Stream):
                         if st.__name__ == "EmptyCommentStyle":
                             case["ext"] = ".zzz"
                         out.append(case)
+                # contributors are names like holders: names whose tail is a comment terminator or a line marker of some style of the
+                # live table (annotgen.tricky_names), alone and next to other information — whatever the first run does with such a
+                # request (write it or refuse it), the second run must do the same and leave the same bytes
+                import annotgen
+                names = annotgen.tricky_names()
+                for name in (names if tier == "thorough" else rng.sample(names, 3)):
+                    cpr, lic, con = rng.choice([([], [], [name]), (INFOS[0][0], INFOS[0][1], [name]), (INFOS[0][0], [], ["Alice", name])])
+                    kind = rng.choice(["empty", "code", "comment-first", "shebang"])
+                    case = {"s": st.__name__, "f": "0" + m + "010", "tmpl": "default", "cpr": cpr, "lic": lic, "con": con,
+                            "t": BODIES[kind](st), "kind": kind}
+                    if st.__name__ == "EmptyCommentStyle":
+                        case["ext"] = ".zzz"
+                    out.append(case)
         return c08.attach_bad(out)
 
     def impl(self, case):
